@@ -335,10 +335,78 @@ pub struct RoundTripCase {
     /// (around 16384, beyond which a name cannot be the target of a compression pointer)
     #[serde(default)]
     pub owner_at: Option<u16>,
+    /// first an attempt that fails: the record is added to a writer whose limit ends `slack` octets
+    /// after the first name embedded in the RDATA (so the add is rejected with that name already
+    /// written), then an NS record whose RDATA is that name is added to the same writer and must
+    /// read back: (wire form of the first embedded name, its end offset in the RDATA, slack)
+    #[serde(default)]
+    pub fail_first: Option<(Vec<u8>, u16, u8)>,
 }
 
 fn qn(m: &MName) -> Box<Name> {
     Name::try_from_uncompressed_all(&m.wire()).unwrap()
+}
+
+/// A rejected add followed by an add to the same writer (see `RoundTripCase::fail_first`).
+fn oracle_after_rejected_add(c: &RoundTripCase, name_wire: &[u8], name_end: usize, slack: usize, st: &mut Stats) -> Verdict {
+    let mode = match c.mode % 3 {
+        0 => CompressionMode::Standard,
+        1 => CompressionMode::CasePreserving,
+        _ => CompressionMode::Disabled,
+    };
+    let qname = qn(&c.qname);
+    let owner = qn(&c.owner);
+    let rd: &Rdata = c.rdata.as_slice().try_into().unwrap();
+    let ns: &Rdata = name_wire.try_into().unwrap();
+    // where the RDATA of the first answer starts if the owner is written in full
+    let limit = 12 + c.qname.wire_len() + 4 + c.owner.wire_len() + 10 + name_end + slack;
+    let mut buf = vec![0u8; 4096];
+    let res = catch(|| {
+        let mut w = Writer::new(&mut buf, limit).map_err(|e| format!("new: {e:?}"))?;
+        w.set_compression_mode(mode);
+        w.add_question(&Question { qname: qname.clone(), qtype: Qtype::from(c.rtype), qclass: Qclass::from(c.class) }).map_err(|e| format!("add_question: {e:?}"))?;
+        let first = w.add_answer_rr(HintedName::new(Hint::None, &owner), Type::from(c.rtype), Class::from(c.class), Ttl::from(c.ttl), rd, None);
+        let second = w.add_answer_rr(HintedName::new(Hint::None, &owner), Type::from(mr::T_NS), Class::from(c.class), Ttl::from(c.ttl), ns, None);
+        Ok::<_, String>((first.is_ok(), second.is_ok(), w.finish()))
+    });
+    let (first_ok, second_ok, len) = match res {
+        Ok(Ok(v)) => v,
+        Ok(Err(_)) => {
+            st.discard("limit-too-small-for-the-question");
+            return Ok(());
+        }
+        Err(p) => fail!(panic_signature(&p), "writing after a rejected add panicked: {p}"),
+    };
+    if first_ok || !second_ok {
+        st.discard("the-first-add-was-not-rejected-or-the-second-did-not-fit");
+        return Ok(());
+    }
+    st.class("record-added-after-a-rejected-add-that-had-written-the-same-name");
+    let msg = &buf[..len];
+    let what = format!("class {} type {} RDATA {} rejected at limit {limit} ({mode:?}), then NS {} added: message {}", c.class, c.rtype, hex(&c.rdata), hex(name_wire), hex(msg));
+    let dec = match decode_message(msg) {
+        Ok(d) => d,
+        Err(e) => fail!("written-message-undecodable", "{what} does not decode: {e:?}"),
+    };
+    ensure!(dec.answers.len() == 1, "roundtrip-independent-decode", "{what}: {} answers", dec.answers.len());
+    let folded = |b: &[u8]| MName::from_wire(b).map(|(n, _)| n.folded());
+    ensure!(folded(&dec.answers[0].rdata) == folded(name_wire) && folded(name_wire).is_some(), "roundtrip-independent-decode", "{what}: decodes to RDATA {}", hex(&dec.answers[0].rdata));
+    let got = catch(|| {
+        let mut r = Reader::try_from(msg).map_err(|e| format!("{e:?}"))?;
+        r.read_question().map_err(|e| format!("read_question: {e:?}"))?;
+        let a = r.read_rr().map_err(|e| format!("read_rr: {e:?}"))?;
+        Ok::<_, String>((a.rdata.octets().to_vec(), r.at_eom()))
+    });
+    match got {
+        Err(p) => fail!(panic_signature(&p), "reading back panicked: {p}; {what}"),
+        Ok(Err(e)) => fail!("roundtrip-read-fails", "{what}: reading back failed: {e}"),
+        Ok(Ok((g, eom))) => {
+            ensure!(folded(&g) == folded(name_wire), "roundtrip-wrong", "{what}: read back {}", hex(&g));
+            ensure!(eom, "roundtrip-trailing", "{what}: reader not at the end");
+        }
+    }
+    st.nontrivial(&(msg, c.mode), || json!({"class": c.class, "type": c.rtype, "mode": format!("{mode:?}"), "after_rejected_add": true, "message_hex": hex(msg)}));
+    Ok(())
 }
 
 pub fn oracle_roundtrip(c: &RoundTripCase, st: &mut Stats) -> Verdict {
@@ -346,6 +414,9 @@ pub fn oracle_roundtrip(c: &RoundTripCase, st: &mut Stats) -> Verdict {
     if !mr::validate(c.class, c.rtype, &c.rdata) || c.rtype == mr::T_OPT || c.rtype == mr::T_TSIG {
         st.discard("not-valid-zone-rdata");
         return Ok(());
+    }
+    if let Some((name_wire, name_end, slack)) = &c.fail_first {
+        return oracle_after_rejected_add(c, name_wire, *name_end as usize, *slack as usize, st);
     }
     let mode = match c.mode % 3 {
         0 => CompressionMode::Standard,
@@ -486,15 +557,26 @@ pub fn oracle_roundtrip(c: &RoundTripCase, st: &mut Stats) -> Verdict {
 }
 
 fn roundtrip_case() -> impl Strategy<Value = RoundTripCase> {
-    (gen_name(), gen_name(), valid_rdata(), 0u8..3, prop_oneof![0u32..100000, any::<u32>()]).prop_map(|(qname, owner, (rtype, class, fields), mode, ttl)| RoundTripCase {
-        qname,
-        owner,
-        class,
-        rtype,
-        rdata: flat(&fields),
-        mode,
-        ttl,
-        owner_at: None,
+    (gen_name(), gen_name(), valid_rdata(), 0u8..3, prop_oneof![0u32..100000, any::<u32>()], prop::option::weighted(0.35, 0u8..12)).prop_map(|(qname, owner, (rtype, class, fields), mode, ttl, fail)| {
+        let rdata = flat(&fields);
+        // the first embedded name and where it ends, if more RDATA follows it
+        let mut fail_first = None;
+        if let Some(slack) = fail {
+            let mut at = 0usize;
+            for f in &fields {
+                match f {
+                    FieldSpec::Bytes(b) => at += b.len(),
+                    FieldSpec::Name(n, _) => {
+                        at += n.wire_len();
+                        if at < rdata.len() && !n.labels.is_empty() {
+                            fail_first = Some((n.wire(), at as u16, slack.min((rdata.len() - at - 1) as u8)));
+                        }
+                        break;
+                    }
+                }
+            }
+        }
+        RoundTripCase { qname, owner, class, rtype, rdata, mode, ttl, owner_at: None, fail_first }
     })
 }
 
@@ -513,7 +595,7 @@ fn roundtrip_large_case() -> impl Strategy<Value = RoundTripCase> {
         } else {
             MName { labels: vec![b"own".to_vec(), b"example".to_vec()] }
         };
-        RoundTripCase { qname, owner, class, rtype, rdata: flat(&fields), mode, ttl: 300, owner_at: Some(16384 - before) }
+        RoundTripCase { qname, owner, class, rtype, rdata: flat(&fields), mode, ttl: 300, owner_at: Some(16384 - before), fail_first: None }
     })
 }
 
